@@ -266,6 +266,25 @@ def stepIdle (sys : Sys) (s : State) (t : Tid) (th : Thread) : State :=
     emit (setThread s t { th with phase := nextPhase (sys.body th.ty).length 0, stack := [], locToStub := [] })
       (.lcGet t th.ty none)
 
+def Kind.isAux : Kind → Bool
+  | .aux => true
+  | .fail => true
+  | _ => false
+
+/-- `result = func(*args, **kwargs)`: the object the cached function returns (none: it raises CannotProvide).
+    A new closure gets a fresh identity (the heap index); model loaders/dumpers additionally take their unique
+    file-name index from `ConcurrentCounter` under its lock, which is the same kind of atomic fresh-id step. -/
+def created (s : State) (t : Tid) (site : Site) (const : Nat) (args : List Ref) : Kind → Option (State × Ref)
+  | .fail => none
+  | .prim p => some (s, .prim p)
+  | .aux =>
+    some ({ s with heap := s.heap ++ [{ site := site, const := const, nullable := false, aux := true, args := args,
+                                        creq := t, tainted := args.any (isTainted s.heap) }] }, .clo s.heap.length)
+  | .fresh nullable =>
+    some ({ s with heap := s.heap ++ [{ site := site, const := const, nullable := nullable, aux := false,
+                                        args := args, creq := t, tainted := args.any (isTainted s.heap) }] },
+          .clo s.heap.length)
+
 def stepInstr (sys : Sys) (s : State) (t : Tid) (th : Thread) (pc : Nat) (sub : Sub) (ins : Instr) : State :=
   let len := (sys.body th.ty).length
   match ins with
@@ -283,16 +302,18 @@ def stepInstr (sys : Sys) (s : State) (t : Tid) (th : Thread) (pc : Nat) (sub : 
         (.stubNew t loc x)
   | .stubBind loc =>
     -- track_response: `if last_loc in self._loc_to_stub: self._loc_to_stub.pop(last_loc).set_func(response)`
-    match lookupLoc th.locToStub loc, th.stack with
-    | some x, r :: _ =>
+    -- (`response` is the loader just produced; the default only totalises the function)
+    match lookupLoc th.locToStub loc with
+    | some x =>
+      let r := th.stack.headD (.prim 0)
       let s' := { s with stubs := s.stubs.modify x (fun sd => { sd with target := some r }) }
       emit (setThread s' t { th with phase := nextPhase len (pc + 1), locToStub := eraseLoc th.locToStub loc })
         (.stubBind t loc x r)
-    | _, _ => emit (setThread s t { th with phase := nextPhase len (pc + 1) }) (.noop t)
+    | none => emit (setThread s t { th with phase := nextPhase len (pc + 1) }) (.noop t)
   | .cached site const nargs kind =>
     let args := (th.stack.take nargs).reverse
     let rest := th.stack.drop nargs
-    let isAux := kind == .aux || kind == .fail
+    let isAux := kind.isAux
     let key : Key := { site := site, const := const, aux := isAux, args := args }
     let push (r : Ref) : List Ref := if isAux then rest else r :: rest
     match sub with
@@ -302,24 +323,12 @@ def stepInstr (sys : Sys) (s : State) (t : Tid) (th : Thread) (pc : Nat) (sub : 
       | some _ =>
         emit (setThread s t { th with phase := .run pc .get }) (.ccContains t site args true)
       | none =>
-        match kind with
-        | .fail =>
+        match created s t site const args kind with
+        | none =>
           emit (setThread s t { th with phase := nextPhase len (pc + 1), stack := rest })
             (.ccContains t site args false)
-        | .prim p =>
-          emit (setThread s t { th with phase := .run pc (.store (.prim p)) }) (.ccContains t site args false)
-        | .aux =>
-          let j := s.heap.length
-          let cd : CloData := { site := site, const := const, nullable := false, aux := true, args := args,
-                                creq := t, tainted := args.any (isTainted s.heap) }
-          emit (setThread { s with heap := s.heap ++ [cd] } t { th with phase := .run pc (.store (.clo j)) })
-            (.ccContains t site args false)
-        | .fresh nullable =>
-          let j := s.heap.length
-          let cd : CloData := { site := site, const := const, nullable := nullable, aux := false, args := args,
-                                creq := t, tainted := args.any (isTainted s.heap) }
-          emit (setThread { s with heap := s.heap ++ [cd] } t { th with phase := .run pc (.store (.clo j)) })
-            (.ccContains t site args false)
+        | some (s', r) =>
+          emit (setThread s' t { th with phase := .run pc (.store r) }) (.ccContains t site args false)
     | .get =>
       -- `return self._call_cache[key]` (entries are never removed)
       match ccLookup sys.mode s.stubs s.callCache key with
@@ -333,11 +342,9 @@ def stepInstr (sys : Sys) (s : State) (t : Tid) (th : Thread) (pc : Nat) (sub : 
 
 /-- `self._loader_cache[tp] = loader_` -/
 def stepPut (s : State) (t : Tid) (th : Thread) : State :=
-  match th.stack with
-  | r :: _ =>
-    emit (setThread { s with loaderCache := lcPut s.loaderCache th.ty r } t { th with phase := .call r })
-      (.lcPut t th.ty r)
-  | [] => emit (setThread s t { th with phase := .done }) (.noop t)
+  let r := th.stack.headD (.prim 0)
+  emit (setThread { s with loaderCache := lcPut s.loaderCache th.ty r } t { th with phase := .call r })
+    (.lcPut t th.ty r)
 
 /-- `loader(data)` -/
 def stepCall (sys : Sys) (s : State) (t : Tid) (th : Thread) (r : Ref) : State :=
